@@ -37,9 +37,9 @@ ASSUMPTIONS = [
     'generated database: 44 flights / ~900 instances over 30 airports, 8 countries, 3 continents built by '
     'OAGDatabase.add + index in a temp dir; shipped database tests/data/missions/oag-2019-test-subset.sqlite '
     '(copied to the temp dir, never written)',
-    'the schedules.day column equals the UTC day number of the departure and the spatial index agrees with '
-    'the airports table (checked at start-up; harness error otherwise)',
-    'every-nth-day selection is anchored at start_date when given, otherwise at the first day in the database',
+    'every-nth-day selection is judged on the UTC day number of the departure timestamp (never on the stored day column), '
+    'anchored at start_date when given, otherwise at the first UTC departure day in the database; spatial conditions are '
+    'judged on the airports table (the shipped file\'s spatial index is checked against it at start-up)',
     'bounding-box edges are kept >= 1e-3 degrees away from every airport (the spatial index stores float32)',
     'sampling: subset + size within a 6-sigma binomial band (exactly all rows for 1.0); sampled queries are '
     'exempt from the run-again-equality clause, not from the size band; sample with limit only checks subset/order/size<=limit; '
@@ -91,10 +91,13 @@ def _ensure():
     tabs = {'gen': ref.Tables(gen), 'ship': ref.Tables(ship)}
     if acc < 30 or len(tabs['gen'].inst) < 400:
         raise HarnessError(f'generated database too small: {acc}/{n} flights, {len(tabs["gen"].inst)} instances')
-    for k, t in tabs.items():
-        bad = t.assumptions_violated()
-        if bad:
-            raise HarnessError(f'database {k}: {bad}')
+    # Only the shipped file (static test data) is checked against the oracle's assumptions.  The
+    # generated database is an output of the code under test: if the importer writes an
+    # inconsistent day column or spatial index there, the queries that rely on it disagree with
+    # the oracle (which uses departure timestamps and the airports table only) - a verdict.
+    bad = tabs['ship'].assumptions_violated()
+    if bad:
+        raise HarnessError(f'shipped database: {bad}')
     _S.update(paths={'gen': gen, 'ship': ship}, tabs=tabs, dir=d)
 
 
